@@ -154,6 +154,7 @@ func c05(c *Ctx) {
 	c08defaults(c, rd, "C05.control-undisturbing")
 	r.Rule("C05.reader-wrappers", "every Read method layered over the message reader or the transport passes inner faults on: an inner error that is not io.EOF is never replaced by nil or io.EOF, and bytes delivered with it are not dropped (same rule as C03.reader-wrappers)")
 	c.readerSiblings("C05.reader-wrappers")
+	rd.inflateWrap("C05.reader-wrappers")
 	if c.readerWrappers("C05.reader-wrappers") < 4 {
 		r.Fail("C05.reader-wrappers", "package", "floor", c.fn("(*joinReader).Read").Pos(), "fewer than the 4 known reader wrappers were analysed")
 	}
